@@ -44,14 +44,19 @@ use std::time::{Duration, Instant};
 /// `NodeInfo::can_accept_writes` (a node at 96 % must not accept writes, one at
 /// 75 % must — tests/cluster_tests.rs).  Deliberately NOT read from the code.
 const OVERLOAD_AT: u8 = 95;
-const WATCHDOG: Duration = Duration::from_secs(20);
+/// wall-clock budget of one history in a worker (a healthy history takes milliseconds)
+const WATCHDOG: Duration = Duration::from_secs(6);
+/// ... and while shrinking a history whose route did not return
+const SHRINK_WATCHDOG: Duration = Duration::from_secs(3);
 /// pause point of the verif_hooks feature inside route_write (between assign_shard and get_node)
 const PAUSE: &str = "cluster.route_write.after_assign";
 
 // ------------------------------------------------------------------ cases ----
 #[derive(Clone, Debug, PartialEq)]
 enum Op {
-    Reg { n: u32, ty: u8, st: u8, load: u8 },
+    /// register_node with EVERY public field of NodeInfo chosen by the generator: routing may
+    /// consult only type / status / load (and the shard count for round robin)
+    Reg { n: u32, ty: u8, st: u8, load: u8, cap: u32, shards: Vec<u32>, addr: u8, hb_age: u32 },
     St { n: u32, st: u8 },
     Hb { n: u32 },
     Dr { n: u32 },
@@ -120,7 +125,17 @@ struct Case {
 
 fn op_text(o: &Op) -> String {
     match o {
-        Op::Reg { n, ty, st, load } => format!("REG {} {} {} {}", n, ty, st, load),
+        Op::Reg { n, ty, st, load, cap, shards, addr, hb_age } => format!(
+            "REG {} {} {} {} {} {} {} {}",
+            n,
+            ty,
+            st,
+            load,
+            cap,
+            if shards.is_empty() { "-".to_string() } else { shards.iter().map(|x| x.to_string()).collect::<Vec<_>>().join("+") },
+            addr,
+            hb_age
+        ),
         Op::St { n, st } => format!("ST {} {}", n, st),
         Op::Hb { n } => format!("HB {}", n),
         Op::Dr { n } => format!("DR {}", n),
@@ -150,7 +165,19 @@ fn parse_case(line: &str) -> Case {
         match f[0] {
             "S" => c.strat = p(1) as u8,
             "N" => c.salt = p(1),
-            "REG" => c.ops.push(Op::Reg { n: p(1), ty: p(2) as u8, st: p(3) as u8, load: p(4) as u8 }),
+            "REG" => c.ops.push(Op::Reg {
+                n: p(1),
+                ty: p(2) as u8,
+                st: p(3) as u8,
+                load: p(4) as u8,
+                cap: if f.len() > 5 { p(5) } else { 100 },
+                shards: match f.get(6) {
+                    Some(&"-") | None => Vec::new(),
+                    Some(x) => x.split('+').filter_map(|y| y.parse().ok()).collect(),
+                },
+                addr: p(7) as u8,
+                hb_age: p(8),
+            }),
             "ST" => c.ops.push(Op::St { n: p(1), st: p(2) as u8 }),
             "HB" => c.ops.push(Op::Hb { n: p(1) }),
             "DR" => c.ops.push(Op::Dr { n: p(1) }),
@@ -288,12 +315,25 @@ fn worker_history(rt: &tokio::runtime::Runtime, case: &Case) {
             _ => "-".to_string(),
         };
         say(format!("B {} {}", i, order));
-        let res: String = rt.block_on(async {
+        let res: String = csv_common::catch(std::panic::AssertUnwindSafe(|| rt.block_on(async {
             match op {
-                Op::Reg { n, ty, st, load } => {
-                    let mut info = NodeInfo::new(node_name(salt, *n), "127.0.0.1:8000".parse().unwrap(), ntype(*ty));
+                Op::Reg { n, ty, st, load, cap, shards, addr, hb_age } => {
+                    let a = match addr % 4 {
+                        0 => "127.0.0.1:8000".to_string(),
+                        1 => format!("10.0.{}.{}:8081", addr, n),
+                        2 => "[::1]:9".to_string(),
+                        _ => format!("192.168.1.{}:{}", addr, 1000 + *n),
+                    };
+                    let mut info = NodeInfo::new(node_name(salt, *n), a.parse().unwrap(), ntype(*ty));
                     info.status = status(*st);
                     info.load_percent = *load;
+                    info.capacity = *cap;
+                    info.shards = shards.iter().map(|x| shard_name(salt, *x)).collect();
+                    if *hb_age > 0 {
+                        if let Some(t) = std::time::Instant::now().checked_sub(Duration::from_secs(*hb_age as u64)) {
+                            info.last_heartbeat = t;
+                        }
+                    }
                     c.registry.register_node(info).await;
                     "-".to_string()
                 }
@@ -384,7 +424,8 @@ fn worker_history(rt: &tokio::runtime::Runtime, case: &Case) {
                     format!("reg={}", r.iter().map(|(n, t, s, l)| format!("{}:{}:{}:{}", n, t, s, l)).collect::<Vec<_>>().join(","))
                 }
             }
-        });
+        })))
+        .unwrap_or_else(|_| "panic".to_string());
         let obs = rt.block_on(observe(&c));
         say(format!("E {} {}|{}", i, res, obs));
     }
@@ -392,6 +433,7 @@ fn worker_history(rt: &tokio::runtime::Runtime, case: &Case) {
 }
 
 fn worker_main() {
+    std::panic::set_hook(Box::new(|_| {}));
     let rt = tokio::runtime::Builder::new_current_thread().enable_all().build().unwrap();
     let stdin = std::io::stdin();
     for line in stdin.lock().lines() {
@@ -466,6 +508,9 @@ impl Impl {
         Impl { w: None, runs: 0, restarts: 0 }
     }
     fn run(&mut self, case: &Case) -> ImplRun {
+        self.run_with(case, WATCHDOG)
+    }
+    fn run_with(&mut self, case: &Case, watchdog: Duration) -> ImplRun {
         self.runs += 1;
         if self.w.is_none() {
             self.w = Some(Worker::spawn());
@@ -473,7 +518,7 @@ impl Impl {
         let w = self.w.as_mut().unwrap();
         let mut run = ImplRun { tokens: Vec::new(), orders: Vec::new(), died: None, pauses: Vec::new() };
         let sent = writeln!(w.stdin, "{}", case_text(case)).is_ok() && w.stdin.flush().is_ok();
-        let deadline = Instant::now() + WATCHDOG;
+        let deadline = Instant::now() + watchdog;
         let mut open: Option<usize> = None; // op begun, not yet finished
         let mut done = false;
         while sent && !done {
@@ -620,7 +665,7 @@ fn oracle(case: &Case, run: &ImplRun) -> Vec<String> {
                     i,
                     s,
                     how,
-                    if how == "abort" { "the worker process died — unbounded recursion ends in a stack overflow" } else { "watchdog expired" }
+                    if how == "abort" { "the worker process died: stack overflow / abort, as unbounded recursion ends" } else { "watchdog expired: the call spins or blocks for ever" }
                 )),
                 _ => bad.push(format!("op {}: {} did not return ({})", i, op_text(op), how)),
             }
@@ -630,7 +675,7 @@ fn oracle(case: &Case, run: &ImplRun) -> Vec<String> {
         let before = reg.clone();
         // shadow registry (semantics of NodeRegistry's public mutators)
         match op {
-            Op::Reg { n, ty, st, load } => {
+            Op::Reg { n, ty, st, load, .. } => {
                 reg.insert(*n, Shadow { ty: *ty, st: *st, load: *load });
             }
             Op::St { n, st } => {
@@ -759,6 +804,28 @@ fn gen_load(rng: &mut Rng) -> u8 {
     }
 }
 
+/// capacity far from the default 100 in both directions, pre-populated shard lists, other
+/// addresses, old heartbeats: none of these may influence where a write is routed
+fn gen_reg(rng: &mut Rng, n: u32, ty: u8, st: u8, load: u8, ns: u32) -> Op {
+    let cap = match rng.below(12) {
+        0 => 0,
+        1 => 1,
+        2 => 10,
+        3 => 50,
+        4 => 99,
+        5 => 101,
+        6 => 200,
+        7 => 400,
+        8 => 100_000,
+        9 => u32::MAX,
+        _ => 100,
+    };
+    let shards: Vec<u32> = if rng.chance(1, 4) { (0..rng.range_usize(1, 4)).map(|_| rng.below(ns as u64 + 2) as u32).collect() } else { Vec::new() };
+    let addr = if rng.chance(1, 3) { rng.below(200) as u8 } else { 0 };
+    let hb_age = if rng.chance(1, 5) { *rng.pick(&[1u32, 14, 16, 29, 31, 3600]) } else { 0 };
+    Op::Reg { n, ty, st, load, cap, shards, addr, hb_age }
+}
+
 fn gen_case(rng: &mut Rng, report: &mut Report) -> Case {
     let strat = rng.below(3) as u8;
     let salt = rng.below(1000) as u32;
@@ -777,7 +844,8 @@ fn gen_case(rng: &mut Rng, report: &mut Report) -> Case {
         let n = rng.below(k as u64) as u32;
         let st = if rng.chance(1, 8) { rng.below(4) as u8 } else { 0 };
         let load = if rng.chance(1, 4) { gen_load(rng) } else { rng.below(60) as u8 };
-        ops.push(Op::Reg { n, ty: gen_type(rng), st, load });
+        let ty = gen_type(rng);
+        ops.push(gen_reg(rng, n, ty, st, load, ns));
     }
     let len = rng.range_usize(4, 26);
     for _ in 0..len {
@@ -805,7 +873,10 @@ fn gen_case(rng: &mut Rng, report: &mut Report) -> Case {
         } else if r < 38 {
             Op::Rt { s: rng.below(ns as u64) as u32 }
         } else if r < 50 {
-            Op::Reg { n, ty: gen_type(rng), st: if rng.chance(1, 6) { rng.below(4) as u8 } else { 0 }, load: if rng.chance(1, 3) { gen_load(rng) } else { rng.below(60) as u8 } }
+            let ty = gen_type(rng);
+            let st = if rng.chance(1, 6) { rng.below(4) as u8 } else { 0 };
+            let load = if rng.chance(1, 3) { gen_load(rng) } else { rng.below(60) as u8 };
+            gen_reg(rng, n, ty, st, load, ns)
         } else if r < 59 {
             Op::St { n, st: rng.below(4) as u8 }
         } else if r < 67 {
@@ -832,6 +903,7 @@ fn gen_case(rng: &mut Rng, report: &mut Report) -> Case {
     ops.push(Op::Ob);
     for o in &ops {
         report.bump(match o {
+            Op::Reg { cap, .. } if *cap != 100 => "op.register.capacity_not_100",
             Op::Reg { .. } => "op.register",
             Op::St { .. } => "op.set_status",
             Op::Hb { .. } => "op.heartbeat",
@@ -849,7 +921,10 @@ fn gen_case(rng: &mut Rng, report: &mut Report) -> Case {
 }
 
 fn reg(n: u32) -> Op {
-    Op::Reg { n, ty: 0, st: 0, load: 0 }
+    regc(n, 0, 0, 100)
+}
+fn regc(n: u32, ty: u8, load: u8, cap: u32) -> Op {
+    Op::Reg { n, ty, st: 0, load, cap, shards: Vec::new(), addr: 0, hb_age: 0 }
 }
 
 /// Witnesses and proof-derived corner cases that always run first.
@@ -874,7 +949,7 @@ fn corpus() -> Vec<(String, Case)> {
             ("overload95", Op::Ld { n: 0, load: 95 }),
             ("load94", Op::Ld { n: 0, load: 94 }),
             ("removed", Op::Rm { n: 0 }),
-            ("now_query", Op::Reg { n: 0, ty: 1, st: 0, load: 0 }),
+            ("now_query", regc(0, 1, 0, 100)),
         ] {
             let mut ops = vec![reg(0), reg(1), reg(2)];
             ops.extend(routes(8));
@@ -910,6 +985,37 @@ fn corpus() -> Vec<(String, Case)> {
         ops.extend(routes(8));
         ops.push(Op::Ob);
         v.push((format!("ties.s{}", strat), Case { strat, salt: 4, ops }));
+    }
+    // capacity must not enter eligibility: a big node at 97 % is overloaded, a small node at 50 % is not;
+    // pre-populated shard lists only matter for the round-robin count
+    for strat in 0..3u8 {
+        let mut ops = vec![regc(0, 0, 97, 400), regc(1, 0, 50, 10), regc(2, 2, 94, 1), regc(3, 0, 95, 100_000)];
+        ops.extend(routes(8));
+        ops.extend([Op::Ld { n: 1, load: 96 }, Op::Ld { n: 2, load: 95 }]);
+        ops.extend(routes(8));
+        ops.extend([Op::Ld { n: 0, load: 20 }, Op::Rb]);
+        ops.extend(routes(8));
+        ops.push(Op::Reg { n: 4, ty: 0, st: 0, load: 0, cap: 0, shards: vec![0, 1, 2, 9], addr: 7, hb_age: 3600 });
+        ops.extend(routes(8));
+        ops.push(Op::Ob);
+        v.push((format!("capacity.s{}", strat), Case { strat, salt: 7, ops }));
+        // extreme capacities (arithmetic on them must not overflow either)
+        let mut ops = vec![regc(0, 0, 95, u32::MAX), regc(1, 0, 94, 0), regc(2, 0, 255, u32::MAX)];
+        ops.extend(routes(4));
+        ops.push(Op::Ob);
+        v.push((format!("capacity_extreme.s{}", strat), Case { strat, salt: 7, ops }));
+    }
+    // a node the ring does not know joins, then every ring member becomes ineligible / is removed
+    for strat in 0..3u8 {
+        for (name, kill) in [("drain", vec![Op::Dr { n: 0 }, Op::Dr { n: 1 }]), ("remove", vec![Op::Rm { n: 0 }, Op::Rm { n: 1 }]), ("fail", vec![Op::St { n: 0, st: 2 }, Op::Ld { n: 1, load: 99 }])] {
+            let mut ops = vec![reg(0), reg(1)];
+            ops.extend(routes(3));
+            ops.push(reg(2));
+            ops.extend(kill);
+            ops.extend(routes(4));
+            ops.push(Op::Ob);
+            v.push((format!("ring_members_gone.{}.s{}", name, strat), Case { strat, salt: 8, ops }));
+        }
     }
     // another task keeps taking away the node that was just assigned and giving back the other
     // one: without the bound on the retry this route never returns
@@ -1009,22 +1115,46 @@ fn main() {
     }
 
     let n_random = if args.thorough() { 30_000 } else { 3_000 };
+    // bounds on the work, so that a tree on which routing hangs or crashes still yields a report
+    // (with the hang as an oracle violation and a shrunk replay) well inside the check's timeout
+    let wall_budget = Duration::from_secs(if args.thorough() { 17 * 60 } else { 8 * 60 });
+    const MAX_FAILING: u32 = 10; // stop generating after this many failing histories
+    const MAX_SHRUNK: u32 = 3; // only the first few are delta-debugged (the others are only cut at the failing op)
+    const SHRINK_RUNS: u32 = 100; // candidate runs per shrink
+    const SHRINK_SECS: u64 = 60; // wall time per shrink
+    let t0 = Instant::now();
     let mut rng = Rng::new(args.seed);
-    let mut cases: Vec<(String, Case)> = corpus();
-    for (_, c) in &cases {
-        report.bump(&format!("strategy.{}", ["consistent_hash", "round_robin", "load_based"][c.strat.min(2) as usize]));
-    }
-    for _ in 0..n_random {
-        let mut r = rng.fork();
-        cases.push(("random".to_string(), gen_case(&mut r, &mut report)));
-    }
-
-    let mut shrinks_left = 4u32; // shrinking re-runs the history many times; a crash costs ~1 s
+    let corpus_cases = corpus();
+    let n_corpus = corpus_cases.len();
+    let mut corpus_iter = corpus_cases.into_iter();
     let mut failing = 0u32;
-    for (origin, case) in cases {
-        if failing >= 40 {
-            report.notes.push("stopped early: 40 failing histories".to_string());
+    let mut shrunk_done = 0u32;
+    let mut idx = 0usize;
+    loop {
+        if idx >= n_corpus + n_random {
             break;
+        }
+        if failing >= MAX_FAILING {
+            report.notes.push(format!("stopped after {} failing histories ({} histories run)", failing, idx));
+            break;
+        }
+        if t0.elapsed() > wall_budget {
+            report.notes.push(format!("stopped at the wall budget of {} s ({} histories run)", wall_budget.as_secs(), idx));
+            break;
+        }
+        let (origin, case) = match corpus_iter.next() {
+            Some((o, c)) => {
+                report.bump(&format!("strategy.{}", ["consistent_hash", "round_robin", "load_based"][c.strat.min(2) as usize]));
+                (o, c)
+            }
+            None => {
+                let mut r = rng.fork();
+                ("random".to_string(), gen_case(&mut r, &mut report))
+            }
+        };
+        idx += 1;
+        if idx % 1000 == 0 {
+            report.write(&args.out);
         }
         let text = case_text(&case);
         report.case(if nontrivial(&case) { Some(&text) } else { None });
@@ -1050,47 +1180,72 @@ fn main() {
             report.sample(json!({"history": text, "impl": impl_out, "model": model_out}));
         }
         let bad = oracle(&case, &run);
-        if differs || !bad.is_empty() {
-            failing += 1;
+        if !differs && bad.is_empty() {
+            continue;
         }
-        if differs {
-            let strat = case.strat;
-            let salt = case.salt;
-            let do_shrink = shrinks_left > 0;
-            shrinks_left = shrinks_left.saturating_sub(1);
-            let shrunk = if !do_shrink { case.ops.clone() } else { ddmin(&case.ops, &mut |cand: &[Op]| {
+        failing += 1;
+        // ---- shrink (bounded): first cut the history right after the operation that did not
+        // return, then delta-debug with a short watchdog, a cap on candidate runs and on time
+        let strat = case.strat;
+        let salt = case.salt;
+        let hung = run.died.is_some();
+        let mut ops = case.ops.clone();
+        if hung {
+            ops.truncate(run.tokens.len().max(1));
+        }
+        let watchdog = if hung { SHRINK_WATCHDOG } else { WATCHDOG };
+        let by_oracle = !bad.is_empty(); // a failing input is worth more than a disagreement
+        if shrunk_done < MAX_SHRUNK {
+            shrunk_done += 1;
+            let ts = Instant::now();
+            let mut runs = 0u32;
+            ops = ddmin(&ops, &mut |cand: &[Op]| {
+                if runs >= SHRINK_RUNS || ts.elapsed().as_secs() >= SHRINK_SECS || t0.elapsed() > wall_budget + Duration::from_secs(60) {
+                    return false;
+                }
+                runs += 1;
                 let c = Case { strat, salt, ops: cand.to_vec() };
-                let r = imp.run(&c);
-                model.differs(&model_line(&c, &r, vnodes), &r.tokens.join(";")).0
-            }) };
-            let sc = Case { strat, salt, ops: shrunk };
-            let sr = imp.run(&sc);
-            let sm = model.ask(&model_line(&sc, &sr, vnodes));
-            let sbad = oracle(&sc, &sr);
+                let r = imp.run_with(&c, watchdog);
+                if by_oracle {
+                    !oracle(&c, &r).is_empty()
+                } else {
+                    model.differs(&model_line(&c, &r, vnodes), &r.tokens.join(";")).0
+                }
+            });
+            report.bump_by("shrink.candidate_runs", runs as u64);
+        }
+        let sc = Case { strat, salt, ops };
+        let sr = imp.run_with(&sc, watchdog);
+        let sbad = oracle(&sc, &sr);
+        let sm = model.ask(&model_line(&sc, &sr, vnodes));
+        let s_impl = sr.tokens.join(";");
+        let s_differs = !model.is_null() && sm != s_impl;
+        // if the shrunk history does not fail any more (flaky timing), fall back to the original
+        let (rc, rimpl, rmodel, rbad) = if (by_oracle && sbad.is_empty()) || (!by_oracle && !s_differs) {
+            (case.clone(), impl_out.clone(), model_out.clone(), bad.clone())
+        } else {
+            (sc, s_impl, sm, sbad)
+        };
+        if differs {
             report.disagreement(json!({
                 "correspondence": "router model (Model/Router.v: route_write / assign_shard / rebalance) vs DistributedWriteRouter + ShardAssignment + NodeRegistry",
                 "case": text, "impl": impl_out, "model": model_out,
-                "shrunk": case_text(&sc), "shrunk_impl": sr.tokens.join(";"), "shrunk_model": sm,
-                "oracle_failed": !sbad.is_empty() || !bad.is_empty(),
+                "shrunk": case_text(&rc), "shrunk_impl": rimpl, "shrunk_model": rmodel,
+                "oracle_failed": !rbad.is_empty() || !bad.is_empty(),
             }));
         }
         if !bad.is_empty() {
-            let strat = case.strat;
-            let salt = case.salt;
-            let do_shrink = shrinks_left > 0;
-            shrinks_left = shrinks_left.saturating_sub(1);
-            let shrunk = if !do_shrink { case.ops.clone() } else { ddmin(&case.ops, &mut |cand: &[Op]| {
-                let c = Case { strat, salt, ops: cand.to_vec() };
-                let r = imp.run(&c);
-                !oracle(&c, &r).is_empty()
-            }) };
-            let sc = Case { strat, salt, ops: shrunk };
-            let sr = imp.run(&sc);
-            let sbad = oracle(&sc, &sr);
-            let what = if sbad.is_empty() { bad.join("; ") } else { sbad.join("; ") };
-            report.oracle_violation("", &what, json!({"case": case_text(&sc), "original": text, "impl": sr.tokens.join(";")}));
+            let what = if rbad.is_empty() { bad.join("; ") } else { rbad.join("; ") };
+            report.oracle_violation("", &what, json!({"case": case_text(&rc), "original": text, "impl": rimpl}));
         }
+        report.write(&args.out); // incremental: what was found so far survives a kill
     }
-    report.notes.push(format!("model calls: {}; implementation histories run in worker processes: {} (worker restarts after a crash/hang: {})", model.calls, imp.runs, imp.restarts));
+    report.notes.push(format!(
+        "model calls: {}; implementation histories run in worker processes: {} (worker restarts after a crash/hang: {}); wall {} s",
+        model.calls,
+        imp.runs,
+        imp.restarts,
+        t0.elapsed().as_secs()
+    ));
     report.write(&args.out);
 }
